@@ -282,7 +282,7 @@ class AuxRead(AuxBase):
             w.counters["probe:aux_lazy_decode"] += 1
         if out.kind != "ok":
             return Exp("ok", value="read", owner=("C07", "C01", "C14"))
-        check_read(w, op["c"], op["name"], tbl, out.raw, ("C07", "C01"), ("C07", "C09"), decoded_now=lazy)
+        check_read(w, op["c"], op["name"], tbl, out.raw, ("C07", "C01"), ("C07", "C09", "C01"), decoded_now=lazy)
         w.aux_refs[(op["c"], op["name"])] = out.raw
         if tbl["state"] == "untouched":
             tbl["state"] = "read"
